@@ -508,7 +508,19 @@ def autodiff_errors(cfg, obj, x, c, J=None, tol=1e-6):
     # Jacobian (a product of reciprocals of such widths) and the closed-form log-derivative then differ in the 5th digit
     # (second-pass seed 7919: 2e-5 relative at log_det = -56.4).  Extreme log-dets get 1e-4.
     tol_eff = tol if abs(ref) <= 20.0 else max(tol, 1e-4)
+    slack = 0.0
     if sign != 0 and np.isfinite(ref) and not abs(ld - ref) <= tol_eff * max(1.0, abs(ref)):
+        # measured conditioning of the REPORTED value: with softmax_adjust = 0 and far-out conditioner inputs a bin can be ~1e-14 wide, an
+        # input a few ulps from its knot then has a relative position theta with 1-2 significant bits (thorough run, x[3] 27 ulp inside the
+        # interval end: reported 2.5923 vs autodiff 2.5912).  Slack = 16 x the change of the reported log-det over +-2 ulp of the input.
+        for sgn in (-1.0, 1.0):
+            xn = xa.copy()
+            for _ in range(2):
+                xn = np.nextafter(xn, sgn * np.inf)
+            ldn = float(obj.transform_and_log_det(jnp.asarray(xn), cj)[1])
+            if np.isfinite(ldn):
+                slack = max(slack, 16.0 * abs(ldn - ld))
+    if sign != 0 and np.isfinite(ref) and not abs(ld - ref) <= tol_eff * max(1.0, abs(ref)) + slack:
         errs.append(f"transform_and_log_det log_det = {ld!r} but ln|det jacobian(transform)| = {float(ref)!r} at x = {xa.tolist()}"
                     f"{'' if c is None else ' condition ' + str(np.ravel(c).tolist())}")
     x2, ldi = obj.inverse_and_log_det(jnp.asarray(y), cj)
